@@ -550,6 +550,7 @@ func cmdConc(args []string) {
 			defer wg.Done()
 			rec := NewRec(d, 1, tr, *seed+int64(i))
 			rec.DumpAll = false
+			rec.Light = true
 			r := rand.New(rand.NewSource(*seed*101 + int64(i)))
 			var ins []int
 			for j, e := range d.Universe() {
@@ -559,26 +560,38 @@ func cmdConc(args []string) {
 			}
 			up := true
 			cnt := 0
+			present := map[int]bool{}
+			// most goroutines oscillate between a low-water mark and full, so that grow and shrink thresholds are
+			// crossed (and nodes released and acquired) every few dozen operations
+			low := []int{0, 20, 40, 8}[i%4]
+			if low >= len(ins)-4 {
+				low = 0
+			}
 			bt := Battery{Iter: true, MinMax: true}
 			for s := 0; s < *length && !rec.Dead; s++ {
 				if cnt >= len(ins) {
 					up = false
 				}
-				if cnt <= 0 {
+				if cnt <= low {
 					up = true
 				}
 				doIns := up
 				if r.Intn(7) == 0 {
 					doIns = !doIns
 				}
+				// mostly an absent key when inserting and a present one when deleting, so that the fill level really moves
 				k := ins[r.Intn(len(ins))]
+				for try := 0; try < 8 && present[k] == doIns && r.Intn(10) > 0; try++ {
+					k = ins[r.Intn(len(ins))]
+				}
 				if doIns {
 					rec.Insert(k)
-					cnt++
+					present[k] = true
 				} else {
 					rec.Delete(k)
-					cnt--
+					delete(present, k)
 				}
+				cnt = len(present)
 				if s%5 == 0 {
 					runtime.Gosched()
 				}
